@@ -811,6 +811,14 @@ func (ex *Exec) vrtIntrinsic(name string) intrinsic {
 		return func(ex *Exec, fn *ssa.Function, a []Value) Value {
 			return st.Const(64, uint64(len(ex.ghost)))
 		}
+	case "And":
+		return func(ex *Exec, fn *ssa.Function, a []Value) Value { return st.And(a[0].(*Term), a[1].(*Term)) }
+	case "Or":
+		return func(ex *Exec, fn *ssa.Function, a []Value) Value { return st.Or(a[0].(*Term), a[1].(*Term)) }
+	case "Ite":
+		return func(ex *Exec, fn *ssa.Function, a []Value) Value {
+			return st.Ite(a[0].(*Term), a[1].(*Term), a[2].(*Term))
+		}
 	case "Symbolic":
 		return func(ex *Exec, fn *ssa.Function, a []Value) Value { return st.T }
 	case "init":
